@@ -36,6 +36,8 @@ type Step struct {
 	DLen   int    `json:"dlen"`   // decoys of a batch have length len+DLen (only when no projectors are loaded: projections need one length)
 	DPre   int    `json:"dpre"`   // ... and presamples pre+DPre (clamped into 1..their length-1)
 	DSign  bool   `json:"dsign"`  // ... and the opposite signedness
+	Reload bool   `json:"reload"` // load this step's model OVER the loaded one (same record length): no pulse-length change in between
+	Burst  int    `json:"burst"`  // >0: the record is analysed in ONE call together with Burst-1 other records of the same length (trigger burst)
 	View   int    `json:"view"`   // 0: matrices from mat.NewDense (contiguous); 1,2: Slice views into larger matrices (Stride > Cols)
 }
 
@@ -258,6 +260,39 @@ func matrixFor(rows [][]float64, view int, which int) *mat.Dense {
 
 // ---------- running one case ----------
 
+// rleTerm renders a record as a Coq list; runs of >= 24 equal words become (Rp count word) segments.
+func rleTerm(d []int) string {
+	var parts []string
+	var lit []int
+	flush := func() {
+		if len(lit) > 0 {
+			parts = append(parts, lib.ZListInt(lit))
+			lit = nil
+		}
+	}
+	for i := 0; i < len(d); {
+		j := i
+		for j < len(d) && d[j] == d[i] {
+			j++
+		}
+		if j-i >= 24 {
+			flush()
+			parts = append(parts, fmt.Sprintf("Rp %d %d", j-i, d[i]))
+		} else {
+			lit = append(lit, d[i:j]...)
+		}
+		i = j
+	}
+	flush()
+	if len(parts) == 0 {
+		return "[]"
+	}
+	if len(parts) == 1 && strings.HasPrefix(parts[0], "[") {
+		return parts[0]
+	}
+	return "(" + strings.Join(parts, " ++ ") + ")"
+}
+
 func boolStr(b bool) string {
 	if b {
 		return "true"
@@ -330,7 +365,7 @@ func runCase(c Case) lib.Result {
 	}
 	for i, s := range c.Steps {
 		fins[i] = runStep(st, s, tags)
-		if !s.Hold {
+		if !s.Hold || s.Burst > 0 {
 			finish(i)
 		}
 		if s.Pre < maxPre {
@@ -353,7 +388,7 @@ func runCase(c Case) lib.Result {
 	default:
 		tags["history1"] = true
 	}
-	res.Term = "[" + strings.Join(terms, ";\n ") + "]"
+	res.Term = "(" + strings.Join(terms, "\n ++ ") + ")"
 	res.Impl = outs
 	res.Tags = sortedTags(tags)
 	return res
@@ -373,8 +408,13 @@ func runStep(st *benchState, c Step, tags map[string]bool) func() (string, implO
 	out := implOut{}
 	var P, B [][]float64
 	withProj := c.K > 0 && n >= 4
-	st.dropProjectors()
-	if c.Reconf && legalLengths(n, c.Pre) {
+	if c.Reload && withProj && c.Bad == 0 && st.loaded && st.curN == n {
+		// the client refines its pulse model: a new model replaces the loaded one directly
+		tags["model-reloaded"] = true
+	} else {
+		st.dropProjectors()
+	}
+	if c.Reconf && !st.loaded && legalLengths(n, c.Pre) {
 		st.reconfigure(n, c.Pre)
 		tags["reconfigured"] = true
 	}
@@ -405,8 +445,9 @@ func runStep(st *benchState, c Step, tags map[string]bool) func() (string, implO
 	if c.Pre != st.curP {
 		tags["pre!=configured"] = true
 	}
-	dataTerm := lib.ZListInt(c.Data)
+	dataTerm := rleTerm(c.Data)
 	var held *dastard.VerifHeld
+	var burst []dastard.VerifRecSpec
 	idx := 0
 	func() {
 		defer func() {
@@ -415,6 +456,21 @@ func runStep(st *benchState, c Step, tags map[string]bool) func() (string, implO
 			}
 		}()
 		me := dastard.VerifRecSpec{Data: data, Pre: c.Pre, Signed: c.Signed}
+		if c.Burst > 1 && withProj && st.loaded {
+			// a burst of triggers: many records of one length in ONE call; record j is a deterministic variation
+			burst = make([]dastard.VerifRecSpec, c.Burst)
+			burst[0] = me
+			for j := 1; j < c.Burst; j++ {
+				dj := make([]uint16, n)
+				for i := range dj {
+					dj[i] = data[(i+j)%n] + uint16(97*j) + uint16((i*j)%13)
+				}
+				burst[j] = dastard.VerifRecSpec{Data: dj, Pre: c.Pre, Signed: c.Signed}
+			}
+			held = dsp.VerifAnalyzeMixed(burst)
+			tags["burst"] = true
+			return
+		}
 		if c.Batch == 0 || n == 0 {
 			held = dsp.VerifAnalyzeMixed([]dastard.VerifRecSpec{me})
 			return
@@ -465,7 +521,10 @@ func runStep(st *benchState, c Step, tags map[string]bool) func() (string, implO
 	return func() (string, implOut, bool) {
 		if out.Panic {
 			tags["panic"] = true
-			return fmt.Sprintf("KPanic %s %s %s", boolStr(c.Signed), lib.Z(int64(c.Pre)), dataTerm), out, false
+			return fmt.Sprintf("[KPanic %s %s %s]", boolStr(c.Signed), lib.Z(int64(c.Pre)), dataTerm), out, false
+		}
+		if burst != nil {
+			return burstTerm(dsp, c, burst, held, P, B, out, tags)
 		}
 		rec := held.Read(idx)
 		var term string
@@ -480,11 +539,11 @@ func runStep(st *benchState, c Step, tags map[string]bool) func() (string, implO
 		}
 		out.Resid = strconv.FormatFloat(rec.ResidualStdDev, 'x', -1, 64)
 		if withProj {
-			term = fmt.Sprintf("KP %s %s %s\n  %s\n  %s\n  %s %s %s %s",
+			term = fmt.Sprintf("[KP %s %s %s\n  %s\n  %s\n  %s %s %s %s]",
 				boolStr(c.Signed), lib.Z(int64(c.Pre)), dataTerm, hexMatrix(P), hexMatrix(B), boolStr(out.Accepted),
 				strings.Join(sc, " "), hexList(rec.ModelCoefs), hexf(rec.ResidualStdDev))
 		} else {
-			term = fmt.Sprintf("K0 %s %s %s %s", boolStr(c.Signed), lib.Z(int64(c.Pre)), dataTerm, strings.Join(sc, " "))
+			term = fmt.Sprintf("[K0 %s %s %s %s]", boolStr(c.Signed), lib.Z(int64(c.Pre)), dataTerm, strings.Join(sc, " "))
 		}
 		// tags and the non-triviality rule: mu not an integer and at least one word >= 2^15
 		if c.Signed {
@@ -536,6 +595,67 @@ func runStep(st *benchState, c Step, tags map[string]bool) func() (string, implO
 		}
 		return term, out, big && nonInt && c.Pre >= 3 && n >= c.Pre+1
 	}
+}
+
+func sameBits(a, b dastard.VerifRecord) bool {
+	eq := func(x, y float64) bool {
+		return math.Float64bits(x) == math.Float64bits(y) || (math.IsNaN(x) && math.IsNaN(y))
+	}
+	if !eq(a.PretrigMean, b.PretrigMean) || !eq(a.PretrigDelta, b.PretrigDelta) || !eq(a.PulseAverage, b.PulseAverage) ||
+		!eq(a.PulseRMS, b.PulseRMS) || !eq(a.PeakValue, b.PeakValue) || !eq(a.ResidualStdDev, b.ResidualStdDev) ||
+		len(a.ModelCoefs) != len(b.ModelCoefs) {
+		return false
+	}
+	for i := range a.ModelCoefs {
+		if !eq(a.ModelCoefs[i], b.ModelCoefs[i]) {
+			return false
+		}
+	}
+	return true
+}
+
+// burstTerm renders a few records of a burst (the matrices once). Which records are shown is chosen by
+// re-analysing every record ALONE and comparing bit for bit: records whose result inside the burst differs
+// from their result alone are shown first (at most 3), then the first and the last record. The Coq side
+// decides on what is shown; this function only chooses.
+func burstTerm(dsp *dastard.DataStreamProcessor, c Step, burst []dastard.VerifRecSpec, held *dastard.VerifHeld,
+	P, B [][]float64, out implOut, tags map[string]bool) (string, implOut, bool) {
+	var show []int
+	for j := range burst {
+		alone := dsp.VerifAnalyzeMixed([]dastard.VerifRecSpec{burst[j]}).Read(0)
+		if !sameBits(alone, held.Read(j)) && len(show) < 3 {
+			show = append(show, j)
+			tags["burst-differs-from-alone"] = true
+		}
+	}
+	for _, j := range []int{0, len(burst) - 1} {
+		dup := false
+		for _, k := range show {
+			dup = dup || k == j
+		}
+		if !dup {
+			show = append(show, j)
+		}
+	}
+	sort.Ints(show)
+	var recs []string
+	for _, j := range show {
+		rec := held.Read(j)
+		d := make([]int, len(burst[j].Data))
+		for i, v := range burst[j].Data {
+			d[i] = int(v)
+		}
+		recs = append(recs, fmt.Sprintf("BR %s %s %s %s %s %s %s %s", rleTerm(d), hexf(rec.PretrigMean), hexf(rec.PretrigDelta),
+			hexf(rec.PulseAverage), hexf(rec.PulseRMS), hexf(rec.PeakValue), hexList(rec.ModelCoefs), hexf(rec.ResidualStdDev)))
+		if j == 0 {
+			for _, v := range []float64{rec.PretrigMean, rec.PretrigDelta, rec.PulseAverage, rec.PulseRMS, rec.PeakValue} {
+				out.Scalars = append(out.Scalars, strconv.FormatFloat(v, 'x', -1, 64))
+			}
+		}
+	}
+	term := fmt.Sprintf("KPs %s %s\n  %s\n  %s\n  %s\n  [%s]", boolStr(c.Signed), lib.Z(int64(c.Pre)), hexMatrix(P), hexMatrix(B),
+		boolStr(out.Accepted), strings.Join(recs, ";\n   "))
+	return term, out, false
 }
 
 func sortedTags(m map[string]bool) []string {
@@ -813,6 +933,80 @@ func gen(seed uint64, tier string) []interface{} {
 		}
 		add(Case{Steps: steps[i : i+k]})
 		i += k
+	}
+	// ---- families aimed at state and at accumulator width ----
+	nReload, nLong, nBurst := 10, 3, 3
+	if tier == "thorough" {
+		nReload, nLong, nBurst = 60, 12, 12
+	}
+	// (1) the client refines its pulse model: models loaded one over the other for ONE record length, records
+	// analysed in between; same number of bases (two times in three) or another one; a rejected shape in between
+	for i := 0; i < nReload; i++ {
+		q := r.Fork()
+		n := q.Range(6, 90)
+		k := q.Range(1, 5)
+		var hs []Step
+		for j, m := 0, q.Range(2, 4); j < m; j++ {
+			kk := k
+			if q.Chance(1, 3) {
+				kk = q.Range(1, 6)
+			}
+			p := q.Range(3, n-1)
+			kind := kinds[q.Intn(len(kinds))]
+			st := Step{Signed: q.Bool(), Pre: p, Data: genRecord(q, kind, n, p), Kind: kind, K: kk, MStyle: q.Intn(4), MSeed: q.U64(),
+				Reload: true, Batch: q.Pick([]int{0, 0, 1, 3}), Hold: q.Chance(1, 3), View: q.Pick([]int{0, 0, 1, 2})}
+			if j > 0 && q.Chance(1, 6) {
+				st.Bad = 1 + q.Intn(3)
+			}
+			hs = append(hs, st)
+		}
+		add(Case{Steps: hs})
+	}
+	// (2) very long pre-trigger / post-trigger stretches near full scale: sums of more than 2^15 words at 65535,
+	// of more than 2^16 words on the negative rail of a signed channel (any accumulator narrower than the
+	// float64 / 53-bit one of the code shows here); flat stretches are run-length encoded for the Coq side
+	for i := 0; i < nLong; i++ {
+		q := r.Fork()
+		var p, n, level int
+		signed := false
+		switch i % 3 {
+		case 0: // long pre-trigger at (nearly) full scale
+			p = q.Range(32800, 36000)
+			n = p + q.Range(1, 40)
+			level = q.Pick([]int{65535, 65535, 65534})
+		case 1: // long post-trigger at full scale
+			p = q.Range(3, 50)
+			n = p + q.Range(32800, 36000)
+			level = 65535
+		default: // negative rail of a signed channel, or a level of 60000 with more presamples
+			if q.Bool() {
+				signed = true
+				p = q.Range(65600, 70000)
+				level = 32768
+			} else {
+				p = q.Range(35900, 40000)
+				level = q.Range(60000, 65535)
+			}
+			n = p + q.Range(1, 40)
+		}
+		d := make([]int, n)
+		for j := range d {
+			d[j] = level
+		}
+		for j, m := 0, q.Range(0, 6); j < m; j++ { // a few flickers, so that mu is not an integer
+			d[q.Intn(n)] = level - 1 + 2*q.Intn(2)*(1-level/65535)
+		}
+		add(Case{Steps: []Step{{Signed: signed, Pre: p, Data: d, Kind: "long-flat"}}})
+	}
+	// (3) trigger bursts: 32..160 records of one length in ONE AnalyzeData call with projectors loaded; long records
+	// and several bases, so that a wrong sharing of work between the records of a call has time to show
+	for i := 0; i < nBurst; i++ {
+		q := r.Fork()
+		n := q.Range(500, 900)
+		p := q.Range(3, n/2)
+		k := q.Range(3, 5)
+		add(Case{Steps: []Step{{Signed: q.Bool(), Pre: p, Data: genRecord(q, "pulse", n, p), Kind: "burst", K: k, MStyle: 1 + 2*q.Intn(2),
+			MSeed: q.U64(), Burst: q.Pick([]int{32, 64, 96, 160})}}})
 	}
 	return out
 }
